@@ -42,6 +42,17 @@ func runC08(c *core.Ctx) {
 				c.Violate("hostile/positive", "an error matches an unrelated reference whose Error() panics", t.String())
 			}
 			_ = errors.Is(hostile, e)
+			// ... as the error under examination, bare and below library wrappers (the search then
+			// walks over the layer whose Error() panics), with references that do not match
+			for _, h := range []error{hostile, errors.WithStack(hostile), errors.WithHint(errors.WithDomain(hostile, "d"), "h")} {
+				c.Count("is-with-panicking-Error()", 3)
+				if a, b := errors.Is(h, e), errors.IsAny(h, e, goErr.New("other")); a != b {
+					c.Violate("hostile/isany-disjunction", "IsAny(h, e, other) differs from Is(h, e) for an error h with a layer whose Error() panics", t.String())
+				}
+				if !errors.IsAny(h, e, h) {
+					c.Violate("hostile/reflexive", "IsAny(h, e, h) is false for an error whose Error() panics", t.String())
+				}
+			}
 			if !errors.Is(hostile, hostile) {
 				c.Violate("hostile/reflexive", "Is(x, x) is false for an error whose Error() panics", t.String())
 			}
